@@ -208,6 +208,7 @@ func genTree0(prop string, r *sim.Rand, tier string) sim.Script {
 		c.wGet, c.wIter = 4, 1
 	case "C14":
 		c.children = r.Chance(1, 2)
+		c.setver = r.Chance(1, 3) // nodes of several origins in one store stack
 		c.valProfile = []string{"sep", "bin", "sep", "bin", "plain"}[r.Intn(5)]
 		c.wGet, c.wIter = 4, 0
 	case "C17":
@@ -473,10 +474,14 @@ func GenRounds(prop string, r *sim.Rand, tier string) sim.Script {
 	pool := pathPool(r, profile, nPool)
 	valProfile := []string{"small", "small", "plain"}[r.Intn(3)]
 	n := 0
+	crafted := r.Chance(1, 20) // some values are the hash preimage of a node of the current state
 	mut := func(t int) Op {
 		p := pool[r.Intn(len(pool))]
 		if r.Chance(1, 3) {
 			return Op{K: "del", T: t, P: p}
+		}
+		if crafted && r.Chance(1, 3) {
+			return Op{K: "inspre", T: t, P: p, N: int64(r.Intn(1000))}
 		}
 		n++
 		return Op{K: "ins", T: t, P: p, V: genValue(r, valProfile, n)}
